@@ -1,5 +1,5 @@
 (* C18 driver: prints, from the extracted Coq model (C18_model), the same text as harness/c18_sep.cpp.
-   argv: enum | ops <file> <refresh 0|1> | gen <file> | tglfcheck <harness-output>
+   argv: enum | d4 | ops <file> <refresh 0|1> | gen <file> | equiv <file> | tglfcheck <harness-output>
    Numbers cross as integers scaled by 4; Z/Q/nat stay the Coq datatypes. *)
 open C18_model
 
@@ -69,38 +69,86 @@ let mode_d4 () =
 
 let split_ws s = List.filter (fun x -> x <> "") (String.split_on_char ' ' s)
 
-let dump m =
+let dump_body m =
   let es = List.sort (fun a b -> compare (int_of_nat a.en_lo, int_of_nat a.en_hi) (int_of_nat b.en_lo, int_of_nat b.en_hi)) m in
-  "D" ^ String.concat "" (List.map (fun e -> Printf.sprintf " | %d %d %s" (int_of_nat e.en_lo) (int_of_nat e.en_hi) (pairstr e.en_sp)) es)
+  String.concat "" (List.map (fun e -> Printf.sprintf " | %d %d %s" (int_of_nat e.en_lo) (int_of_nat e.en_hi) (pairstr e.en_sp)) es)
+let dump m extra = "D" ^ dump_body m ^ Printf.sprintf " | e %d" (q4_of_q extra)
+
+(* node sizes of mode ops, scaled by 4: the same table as harness/c18_sep.cpp *)
+let ops_w = [| 8; 16; 24 |] and ops_h = [| 24; 16; 8 |]
+let mask_ids mask = List.filter_map (fun i -> if mask land (1 lsl i) <> 0 then Some (nat_of_int i) else None) [0; 1; 2]
 
 let mode_ops file refresh =
   let ic = open_in file in
-  let m = ref [] in
+  let m = ref [] and extra = ref (q_of_q4 0) in
+  let px = Array.make 3 0 and py = Array.make 3 0 in
+  let pos n = let i = int_of_nat n in if i < 3 then (q_of_q4 px.(i), q_of_q4 py.(i)) else (q_of_q4 0, q_of_q4 0) in
+  let size n = let i = int_of_nat n in if i < 3 then (q_of_q4 ops_w.(i), q_of_q4 ops_h.(i)) else (q_of_q4 0, q_of_q4 0) in
+  let ni s = nat_of_int (int_of_string s) in
+  let upd tag = function Some m' -> m := m' | None -> print_endline (tag ^ "!") in
   (try while true do
       let line = input_line ic in
       match split_ws line with
-      | ["N"] -> m := []
-      | ["X"; _] -> ()
+      | ["N"] -> m := []; extra := q_of_q4 0; Array.fill px 0 3 0; Array.fill py 0 3 0
+      | ["X"; e] -> extra := q_of_q4 (int_of_string e)
+      | ["M"; i; x; y] -> px.(int_of_string i) <- int_of_string x; py.(int_of_string i) <- int_of_string y
       | ["A"; i; j; gt; sd; st; g] ->
-        (match m_addSep refresh (nat_of_int (int_of_string i)) (nat_of_int (int_of_string j)) gts.(int_of_string gt)
-                 dirs.(int_of_string sd) sts.(int_of_string st) (parsegap g) !m with
-         | Some m' -> m := m' | None -> print_endline "A!")
-      | ["F"; i; j; dx; dy] ->
-        (match m_addFixedRelativeSep refresh (nat_of_int (int_of_string i)) (nat_of_int (int_of_string j)) (parsegap dx) (parsegap dy) !m with
-         | Some m' -> m := m' | None -> print_endline "F!")
+        upd "A" (m_addSep refresh (ni i) (ni j) gts.(int_of_string gt) dirs.(int_of_string sd) sts.(int_of_string st) (parsegap g) !m)
+      | ["F"; i; j; dx; dy] -> upd "F" (m_addFixedRelativeSep refresh (ni i) (ni j) (parsegap dx) (parsegap dy) !m)
+      | ["P"; i; j] -> upd "P" (m_addFixedRelativeSepPos refresh (ni i) (ni j) pos !m)
+      | ["O"; i; j; c] -> upd "O" (m_setCardinalOP refresh (ni i) (ni j) [| CEAST; CSOUTH; CWEST; CNORTH |].(int_of_string c) !m)
+      | ["h"; i; j] -> upd "h" (m_hAlign refresh (ni i) (ni j) !m)
+      | ["v"; i; j] -> upd "v" (m_vAlign refresh (ni i) (ni j) !m)
+      | ["E"; i; j; d] -> upd "E" (m_alignByEquatedCoord refresh (ni i) (ni j) (d = "1") !m)
+      | ["R"; i; j] -> m := m_free (ni i) (ni j) !m
+      | ["Z"] -> m := m_clear !m
+      | ["S"; i; j; xgt; ygt; xst; yst; xg; yg] ->
+        let sp = { xgt = gts.(int_of_string xgt); ygt = gts.(int_of_string ygt); xst = sts.(int_of_string xst);
+                   yst = sts.(int_of_string yst); xgap = parsegap xg; ygap = parsegap yg } in
+        upd "S" (m_setSepPair (ni i) (ni j) sp !m)
       | ["C"; i; j] ->
-        let (m', r) = m_getCardinalDir (nat_of_int (int_of_string i)) (nat_of_int (int_of_string j)) !m in
+        let (m', r) = m_getCardinalDir (ni i) (ni j) !m in
         m := m';
         Printf.printf "C %c\n" (match r with None -> 'n' | Some None -> 'x' | Some (Some d) -> cardc d)
       | ["H"; i; j] ->
-        let (m', r) = m_areAligned true (nat_of_int (int_of_string i)) (nat_of_int (int_of_string j)) !m in
+        let (m', r) = m_areAligned true (ni i) (ni j) !m in
         m := m'; Printf.printf "H %d\n" (bi r)
       | ["V"; i; j] ->
-        let (m', r) = m_areAligned false (nat_of_int (int_of_string i)) (nat_of_int (int_of_string j)) !m in
+        let (m', r) = m_areAligned false (ni i) (ni j) !m in
         m := m'; Printf.printf "V %d\n" (bi r)
       | ["T"; t] -> m := m_transform tfs.(int_of_string t) !m
-      | ["D"] -> print_endline (dump !m)
+      | ["TC"; t; mask] -> m := m_transformClosedSubset tfs.(int_of_string t) (mask_ids (int_of_string mask)) !m
+      | ["TO"; t; mask] -> m := m_transformOpenSubset tfs.(int_of_string t) (mask_ids (int_of_string mask)) !m
+      | ["RN"; i] -> m := m_removeNode (ni i) !m
+      | ["RM"; mask] -> m := m_removeNodes (mask_ids (int_of_string mask)) !m
+      | ["U"] -> let (e', m') = m_roundGapsUpward (!extra, !m) in extra := e'; m := m'
+      | ["K"; mask] -> print_endline ("K" ^ dump_body (m_corresponding (mask_ids (int_of_string mask)) !m))
+      | ["Q"] ->
+        let rs = List.sort compare (List.map (fun ((lo, hi), ok) -> (int_of_nat lo, int_of_nat hi, bi ok)) (m_holdsb !extra pos size !m)) in
+        print_endline ("Q" ^ String.concat "" (List.map (fun (a, b, c) -> Printf.sprintf " | %d %d %d" a b c) rs))
+      | ["D"] -> print_endline (dump !m !extra)
       | _ -> ()
+    done with End_of_file -> ());
+  close_in ic
+
+(* equiv <file>: lines "e1 e2 | pair1 | pair2" (pairs as printed by D): the verified checker sep_equivb *)
+let mode_equiv file =
+  let ic = open_in file in
+  let parse_pair l = match l with
+    | [xgt; ygt; xst; yst; xg; yg] ->
+      { xgt = gts.(int_of_string xgt); ygt = gts.(int_of_string ygt); xst = sts.(int_of_string xst);
+        yst = sts.(int_of_string yst); xgap = parsegap xg; ygap = parsegap yg }
+    | _ -> failwith "pair" in
+  (try while true do
+      let line = input_line ic in
+      match String.split_on_char '|' line with
+      | [es; p1; p2] ->
+        (match split_ws es with
+         | [e1; e2] ->
+           Printf.printf "%d\n" (bi (sep_equivb (q_of_q4 (int_of_string e1)) (parse_pair (split_ws p1))
+                                                  (q_of_q4 (int_of_string e2)) (parse_pair (split_ws p2))))
+         | _ -> print_endline "?")
+      | _ -> print_endline "?"
     done with End_of_file -> ());
   close_in ic
 
@@ -179,5 +227,6 @@ let () =
   | [_; "d4"] -> mode_d4 ()
   | [_; "ops"; f; r] -> mode_ops f (r = "1")
   | [_; "gen"; f] -> mode_gen f
+  | [_; "equiv"; f] -> mode_equiv f
   | [_; "tglfcheck"; f] -> mode_tglfcheck f
   | _ -> prerr_endline "usage"; exit 2
